@@ -409,32 +409,43 @@ class Flows:
                                 self.ft(b"sip:u@" + tohost, None, True), b"rc-%d" % self.nid(), routes=routes, rr=rr)
         return s.ev_udp(self.li, ua, self.surplus(data))
 
-    def backend_subscribe(self, d):
+    def backend_subscribe(self, d, refresh=None, expires=b"600"):
+        """see backend_subscribe_ (refresh = a dialog returned earlier: the backend refreshes that subscription)"""
+        return self.backend_subscribe_(d, refresh, expires)
+
+    def backend_subscribe_(self, d, refresh, expires):
         """a SUBSCRIBE issued BY a backend (from its configured address), routed to a UA, and the UA's answer relayed back
         towards that backend: the answer binds the dialog to the backend (C04's second way of binding).  Returns the
         dialog as dialog_history keeps it (state 2, answered = that backend), or None."""
         r, s = self.rng, self.s
         if not self.backends:
             return None
-        b = r.choice(self.backends)
-        bip, bport = b.split(b":")
-        ua = r.choice(self.uas)
         l = s.listens[self.li]
-        callid = b"bsub-%d-%s" % (d, tok(r, 1, 4, b"-"))
-        tb, tu = tok(r, 1, 5, b"-"), tok(r, 1, 5, b"-")
-        buri, uuri = b"sip:svc%d@" % d + bip, b"sip:watcher%d@a.example" % d
+        if refresh is None:
+            b = r.choice(self.backends)
+            bip, bport = b.split(b":")
+            ua = r.choice(self.uas)
+            callid = b"bsub-%d-%s" % (d, tok(r, 1, 4, b"-"))
+            tb, tu = tok(r, 1, 5, b"-"), tok(r, 1, 5, b"-")
+            buri, uuri = b"sip:svc%d@" % d + bip, b"sip:watcher%d@a.example" % d
+            frm, to, cseq = b"<" + buri + b">;tag=" + tb, b"<" + uuri + b">", 1
+        else:
+            b, ua, callid, tb, tu, buri, uuri = (refresh[k] for k in ("answered", "peer", "callid", "ta", "tb", "ua", "ub"))
+            bip, bport = b.split(b":")
+            frm, to, cseq = b"<" + buri + b">;tag=" + tb, b"<" + uuri + b">;tag=" + tu, refresh["cseq"] + 1
         via = b"SIP/2.0/UDP " + b + b";branch=z9hG4bK-bs%d" % self.nid()
-        frm, to = b"<" + buri + b">;tag=" + tb, b"<" + uuri + b">"
+        ex = [(b"Expires", expires)] if expires is not None else []
         hs = [(b"Via", via), (b"Route", b"<sip:" + ua[0] + b":%d;lr>" % ua[1]), (b"From", frm), (b"To", to), (b"Call-ID", callid),
-              (b"CSeq", b"1 SUBSCRIBE"), (b"Event", b"presence"), (b"Expires", b"600")]
+              (b"CSeq", b"%d SUBSCRIBE" % cseq), (b"Event", b"presence")] + ex
         e = s.ev_udp(self.li, (bip, int(bport)), msg(b"SUBSCRIBE " + uuri + b" SIP/2.0", hs))
         # the UA's answer: the proxy's Via on top, then the backend's Via as the proxy relayed it (stamped unless no-received)
         echoed = via if l["no_received"] else via + b";received=" + bip
         code = r.choice([200, 200, 202])
         rs = [(b"Via", b"SIP/2.0/UDP " + l["addr"] + b":%d;branch=" % l["udp"] + placeholder(e)), (b"Via", echoed), (b"From", frm),
-              (b"To", to + b";tag=" + tu), (b"Call-ID", callid), (b"CSeq", b"1 SUBSCRIBE"), (b"Expires", b"600")]
+              (b"To", to if refresh is not None else to + b";tag=" + tu), (b"Call-ID", callid), (b"CSeq", b"%d SUBSCRIBE" % cseq)] + ex
         s.ev_udp(self.li, ua, msg(b"SIP/2.0 %d OK" % code, rs))
-        return {"callid": callid, "ta": tb, "tb": tu, "ua": buri, "ub": uuri, "state": 2, "answered": b, "method": b"SUBSCRIBE"}
+        return {"callid": callid, "ta": tb, "tb": tu, "ua": buri, "ub": uuri, "state": 2, "answered": b, "method": b"SUBSCRIBE",
+                "peer": ua, "cseq": cseq}
 
     def cross_listener(self):
         """a next hop learned through the OTHER listener: the hop first sends a request of its own to listener 2 (the
@@ -802,11 +813,18 @@ def timed_history(rng, block):
                             frm, to, d["callid"], extra=[])
         s.ev_udp(f.li, r.choice(f.uas), data)
 
+    # a subscription started by a backend (bound by the answer relayed towards it, no Expires: 2 s), refreshed at about
+    # 0.7 s by an answer with Expires 5: the binding must then be honoured until 5.7 s, in particular at 2.6 s
+    sub = f.backend_subscribe(50, expires=None) if dt > 0 and r.random() < 0.4 else None
     unrelated()
     s.ev_wait(r.choice([300, 500, 700]))                 # <= 35 % of the shortest lifetime
     for d in ds:
         probe(d)
         unrelated()
+    if sub is not None:
+        sub = f.backend_subscribe(50, refresh=sub, expires=b"5")
+        ds.append({"frm": b"<" + sub["ua"] + b">;tag=" + sub["ta"], "to": b"<" + sub["ub"] + b">;tag=" + sub["tb"],
+                   "callid": sub["callid"], "life": 1200})      # probed at 2.6 s with the live ones
     s.ev_wait(2600 - s.waits[-1][1])                      # 2.6 s after the start: the 2-second pins are over
     for d in ds:
         if d["life"] != 3:
@@ -840,6 +858,7 @@ def tcp_history(rng, block, opts=None):
         conns.append({"cid": c, "sentby": sentby})
     open_tx = []
     n = 0
+    waited = False
     budget = r.randrange(6, 25)
     l = s.listens[f.li]
     while budget > 0:
@@ -861,7 +880,27 @@ def tcp_history(rng, block, opts=None):
             if code >= 200:
                 open_tx.remove(t)
             continue
-        c = r.choice(conns)
+        live = [c for c in conns if not c.get("dead")]
+        if o.get("cleanpass") and open_tx and not waited and r.random() < 0.5:
+            # more than a minute passes while transactions are open: the next look-up runs the table's clean-up pass
+            # (entries of inbound connections live for an hour: the pending transactions must survive it)
+            s.ev_wait(61000)
+            waited = True
+        if open_tx and live and r.random() < o.get("deaths", 0.08):
+            # a connection goes away while transactions are open on it: the client closes it, or sends bytes that do not
+            # decode (the proxy closes it); the answers that arrive later have no connection to return on
+            c = r.choice(live)
+            c["dead"] = True
+            if r.random() < 0.5:
+                s.ev_close(c["cid"])
+            else:
+                s.ev_data(c["cid"], b"GARBAGE without a colon\r\n\r\n")
+            continue
+        if not live:
+            if open_tx:
+                continue
+            break
+        c = r.choice(live)
         n += 1
         method = r.choice([b"INVITE", b"OPTIONS", b"MESSAGE", b"REGISTER"])
         rp = r.choice([b"", b";rport"])
